@@ -32,6 +32,13 @@ class World:
         self.fail_plan = []
         self.on_uplink = None      # optional observer(session, header, data)
         self.reject_connect = []   # per-session: exception text to raise in connect (consumed)
+        self.lossy = None          # optional fn(direction, header, data) -> may this packet be lost?
+        self.on_link_close = None  # optional observer(link), called at the start of close()
+        self.hist = None           # optional shared history list: world.note() appends to it
+
+    def note(self, kind, *args):
+        if self.hist is not None:
+            self.hist.append((len(self.hist), self.sim.now, kind, args, ''))
 
     def add_device(self, name, dev):
         self.devices[name] = dev
@@ -121,7 +128,9 @@ def make_simlink_class():
             cb = self.link_error_callback
             if cb is not None:
                 self.world.sim.log('link-error-driver-thread', self.session)
+                self.world.note('link_error_reported', self.session, 'driver')
                 cb(msg)
+                self.world.note('link_error_returned', self.session, 'driver')
 
         def _trigger_failure(self):
             """Kernel or thread context: the link has failed."""
@@ -167,13 +176,17 @@ def make_simlink_class():
                     cb = self.link_error_callback
                     sim.log('link-error-sender-thread', self.session)
                     if cb is not None:
+                        w.note('link_error_reported', self.session, 'sender')
                         cb(self.fail.get('msg', 'simulated link failure (send)'))
+                        w.note('link_error_returned', self.session, 'sender')
                 return
             self.n_up += 1
             sim.log('up', self.session, header, data)
             if w.on_uplink is not None:
                 w.on_uplink(self, pk)
-            lost = w.faults.flag('up_loss') if w.needs_resending else False
+            lost = False
+            if w.needs_resending and (w.lossy is None or w.lossy('up', header, data)):
+                lost = w.faults.flag('up_loss')
             w.wire.append((sim.now, self.session, 'up', header, data, 'lost' if lost else ''))
             self._count()
             if lost:
@@ -196,7 +209,9 @@ def make_simlink_class():
                 return
             data = bytes(data)
             copies = 1
-            lost = w.faults.flag('down_loss') if w.needs_resending else False
+            lost = False
+            if w.needs_resending and (w.lossy is None or w.lossy('down', header, data)):
+                lost = w.faults.flag('down_loss')
             if not lost and w.faults.flag('down_dup'):
                 copies = 2
             delay = w.faults.amount('down_delay', 0.05, 1.6)
@@ -213,6 +228,8 @@ def make_simlink_class():
             if self.closed or self.failed:
                 return
             self.n_down += 1
+            if self.n_down == 1:
+                self.world.note('first_packet_delivered', self.session)
             self.world.sim.log('down', self.session, header, data)
             self.inbox.put((header, data))
             self._count()
@@ -231,6 +248,8 @@ def make_simlink_class():
 
         def close(self):
             if not self.closed:
+                if self.world.on_link_close is not None:
+                    self.world.on_link_close(self)
                 self.closed = True
                 self.world.sim.log('link-close', self.session)
                 self.errbox.put(None)
